@@ -142,6 +142,7 @@ func NewDispatcher(
 	disp.state.Store(DispatcherStateUnknown)
 	disp.loaded = make(chan struct{})
 	disp.ctx, disp.cancel = context.WithCancel(eventrecorder.WithEventRecording(context.Background()))
+	disp.ctx = verifWithYield(disp.ctx, alerts)
 
 	if metrics != nil && metrics.alertsCollector != nil {
 		metrics.alertsCollector.dispatcher.Store(disp)
@@ -243,6 +244,7 @@ func (d *Dispatcher) run(it provider.AlertIterator) {
 					if alert.Header != nil {
 						ctx = d.propagator.Extract(ctx, propagation.MapCarrier(alert.Header))
 					}
+					verifYield(d.ctx, "worker.recv", alert.Data)
 
 					d.routeAlert(ctx, alert.Data)
 
@@ -284,6 +286,7 @@ func (d *Dispatcher) doMaintenance() {
 		d.routeGroupsSlice[i].groups.Range(func(_, el any) bool {
 			ag := el.(*aggrGroup)
 			if ag.destroyed() {
+				verifYield(d.ctx, "maint.beforeDelete", nil)
 				ag.stop()
 				deleted := d.routeGroupsSlice[i].groups.CompareAndDelete(ag.fingerprint(), ag)
 				if deleted {
@@ -457,6 +460,7 @@ func (d *Dispatcher) groupAlert(ctx context.Context, alert *alert.Alert, route *
 
 	el, loaded := d.routeGroupsSlice[route.Idx].groups.Load(fp)
 	if loaded {
+		verifYield(d.ctx, "group.afterLoad", alert)
 		ag := el.(*aggrGroup)
 		// Try to insert into the aggrgroup.
 		// If it's destroyed insert will return false.
@@ -492,6 +496,7 @@ func (d *Dispatcher) groupAlert(ctx context.Context, alert *alert.Alert, route *
 	// function, to make sure that when the run() will be executed the 1st
 	// alert is already there.
 	ag.insert(ctx, alert)
+	verifYield(d.ctx, "group.beforeStore", alert)
 
 	retries := 0
 	for {
@@ -935,6 +940,7 @@ func (ag *aggrGroup) flush(notify func(...*alert.Alert) bool) {
 
 	if notify(alertsSlice...) {
 		ag.recordResolvedEvents(resolvedSlice)
+		verifYield(ag.ctx, "flush.beforeDelete", nil)
 
 		// Delete all resolved alerts as we just sent a notification for them,
 		// and we don't want to send another one. However, we need to make sure
